@@ -26,8 +26,8 @@ MANIFEST = {
     'technique': 'deductive: VCs from the real AST of _generic_transitions_to_jumps with nested loop invariants, product-program invariant for monotonicity, '
                  'history-level lemmas; z3/cvc5; native replay; exhaustive short histories and random long histories as bounded stand-in',
 }
-UNITS = ['unit_sound', 'unit_default', 'unit_monotone', 'unit_lemmas']
-BOUNDED = ['bounded_histories', 'bounded_purity']
+UNITS = ['unit_sound', 'unit_default', 'unit_monotone', 'unit_lemmas', 'unit_plumbing', 'unit_dep_from_trajectory']
+BOUNDED = ['bounded_histories', 'bounded_purity', 'bounded_plumbing']
 META = {'clauses': {'C04.E1': 'P', 'C04.E2': 'P', 'C04.E3': 'P (product invariant over the real loop body; DataFrame build + row-local filter preserve the subset relation: argued, A-PANDAS)', 'pandas row/groupby semantics': 'A'},
         'not_decided': []}
 
@@ -716,3 +716,22 @@ from verif.native.purity import make_bounded as _make_purity  # noqa: E402
 from verif.props.purity_reg import REG as _PURITY_REG  # noqa: E402
 PURITY = _PURITY_REG['C04']
 bounded_purity = _make_purity('C04', PURITY)
+
+
+def unit_dep_from_trajectory(tier):
+    """The objects this property is stated about are built by Transitions.from_trajectory: its contract (full-radius states -> .states, inner-fraction
+    states -> .inner_states, events from exactly that pair, trajectory / sites kept) is re-discharged here (C02 owns it)."""
+    from verif.props import c02
+    from verif.props.common import merge_units
+    return merge_units('C04.dep_from_trajectory', [c02.unit_from_trajectory(tier)])
+
+
+# plumbing around the anchored functions: forwarding contracts of the public wrappers, no state shared between calls or objects
+from verif.props import plumbing as _plumbing  # noqa: E402
+
+
+def unit_plumbing(tier):
+    return _plumbing.unit_plumbing(PROPERTY)
+
+
+bounded_plumbing = _plumbing.make_bounded(PROPERTY)
